@@ -5,6 +5,8 @@ import StepupModel.Lemmas.MetaSafeReach
 import StepupModel.Lemmas.Discipline
 import StepupModel.Lemmas.ReadyDiscipline
 import StepupModel.Lemmas.SafeDiscipline
+import StepupModel.Lemmas.JobLoopLive
+import StepupModel.Generated.JobLoop
 /-!
 # C10  Dispatch is exact: nothing ineligible starts, nothing eligible is left
 
@@ -377,5 +379,51 @@ and on the real database by the cache oracle (`koracles.cache_invariants`). -/
 /-! Non-vacuity -/
 example : dispatchSpec (.pending, true, false, false, false, .default, true) = true := by decide
 example : dispatchRows ≠ [] := by decide
+
+/-! ## The builder's job loop (`builder.py`, `hash_queue.py`): the phase ends only when idle, the loop
+never sleeps on startable work, and its inner loop terminates -/
+
+open StepupModel.B.JobLoop in
+/-- The phase ends (`job_loop` returns) only when no task is running and none waits to be retired. -/
+theorem job_loop_returns_only_when_idle (njob : Nat) (evs : List Ev)
+    (h : (run njob evs).status = .returned) : (run njob evs).running = [] ∧ (run njob evs).done = [] :=
+  run_retIdle njob evs h
+
+open StepupModel.B.JobLoop in
+/-- **No lost wake-up**: whenever the loop is parked on `wake_job_loop.wait()`, the event is clear
+and, if a job slot is free, the scheduler has no job on offer and every queued hash job has already
+been claimed by a promoted runner: the loop never sleeps on work it could start. -/
+theorem parked_loop_has_nothing_to_start (njob : Nat) (evs : List Ev)
+    (h : (run njob evs).status = .waiting) :
+    (run njob evs).wake = false ∧
+    ((run njob evs).running.length < njob →
+      (run njob evs).offers = [] ∧ ∀ i ∈ (run njob evs).queue, i ∈ (run njob evs).claimed) := by
+  obtain ⟨h1, h2⟩ := run_parkedInv njob evs h
+  rw [(run_running njob evs).2] at h2
+  exact ⟨h1, h2⟩
+
+open StepupModel.B.JobLoop in
+/-- The inner loop terminates: `njob + 4` passes always suffice (more fuel changes nothing). -/
+theorem job_loop_passes_bounded (s : JL) (k : Nat) :
+    settleN (s.njob + 4 + k) s = settleN (s.njob + 4) s :=
+  settleN_fuel_enough _ s k (by have := mu_le s; omega)
+
+/-- Obligations on the source (tables regenerated by `ast` on every run): the events that the
+model treats as setting the wake event do so in the code: a finished task (`_task_done`), a retired
+task (`handle_done_tasks`), a submitted hash job (`HashQueue.submit`); the loop body ends with
+`wait()` directly followed by `clear()`; the loop returns under exactly the modelled test; and every
+RPC handler that can make a step runnable (`define_step`, `release`) sets the wake event. -/
+theorem wake_sites_as_modelled :
+    (∀ f ∈ Generated.jobLoopWakeFacts, f.2 = true) ∧
+    Generated.jobLoopReturnTests = ["len(self.running_tasks) == 0 and len(self.done_tasks) == 0"] ∧
+    (∀ r ∈ Generated.handlerWakes, r.2.1 = true → r.2.2 = true) ∧
+    (∃ r ∈ Generated.handlerWakes, r.1 = "define_step" ∧ r.2.1 = true) ∧
+    (∃ r ∈ Generated.handlerWakes, r.1 = "release_dispatch" ∧ r.2.1 = true) := by decide
+
+open StepupModel.B.JobLoop in
+/-- Non-vacuity: a parked loop with a free slot (one job running, two slots) and a loop that has
+returned after retiring its only job. -/
+example : (run 2 [.offer 1, .start]).status = .waiting ∧ (run 2 [.offer 1, .start]).running.length < 2 ∧
+    (run 2 [.offer 1, .start, .fin (.step 1)]).status = .returned := by decide
 
 end StepupModel.Props.C10
